@@ -1,16 +1,16 @@
 SPECIFICATION Spec
 CONSTANTS
   Versions = {3, 4}
-  StreamSets <- SS_perm
-  NSect = 6
-  Geo <- G4
-  HD = 2
+  StreamSets <- SS_dir2
+  NSect = 8
+  Geo <- G3
+  HD = 3
   XFat = {0}
   XMiniFat = {0}
-  FreeMinis = {0}
-  XDirSect = {0}
-  DirMode = "canon"
-  PlaceMode = "all"
+  FreeMinis = {1}
+  XDirSect = {0, 1}
+  DirMode = "all"
+  PlaceMode = "ends"
   UseAsWas = FALSE
 INVARIANTS Refines
 CHECK_DEADLOCK FALSE
